@@ -13,6 +13,10 @@ pub enum Expectation {
     MustOk,
     /// Ok and equal (numbers by value, keys unordered)
     OkEquals(Value),
+    /// Ok(object) whose member `key` equals `value`
+    OkMember { key: String, value: Value },
+    /// Ok(object) with exactly these member names
+    OkKeys(Vec<String>),
     /// must deserialize and the re-serialised `__typename` at path equals tag
     OkTagAt { path: Vec<PathSeg>, tag: String },
     /// if it deserializes, the re-serialised `__typename` at path equals tag
@@ -67,6 +71,14 @@ pub fn evaluate(e: &Expectation, r: &VecResult) -> Option<String> {
         Expectation::OkEquals(x) => match r {
             VecResult::Ok(v) if json_eq(v, x) => None,
             other => Some(format!("expected Ok({}) observed {}", x, show(other)).chars().take(900).collect()),
+        },
+        Expectation::OkMember { key, value } => match r {
+            VecResult::Ok(v) if v.get(key).map(|x| json_eq(x, value)).unwrap_or(false) => None,
+            other => Some(format!("expected member {:?} = {} observed {}", key, value, show(other)).chars().take(1200).collect()),
+        },
+        Expectation::OkKeys(keys) => match r {
+            VecResult::Ok(Value::Object(m)) if m.len() == keys.len() && keys.iter().all(|k| m.contains_key(k)) => None,
+            other => Some(format!("expected an object with exactly the members {:?}, observed {}", keys, show(other))),
         },
         Expectation::OkTagAt { path, tag } => match r {
             VecResult::Ok(v) => {
